@@ -21,17 +21,18 @@ import (
 
 // FeedLog records what one feed callback received, in arrival order.
 type FeedLog struct {
-	ID     string
-	Coll   int
-	Handle int
-	mu     sync.Mutex
-	cond   *sync.Cond
-	Evs    []FEv
-	Term   chan bool
-	Done   chan struct{}
-	after  int  // callbacks after Done was observed closed
-	closed bool // Done observed closed
-	Park   chan struct{} // if non-nil the callback blocks on it before recording (used to queue events)
+	ID      string
+	Coll    int
+	Handle  int
+	mu      sync.Mutex
+	cond    *sync.Cond
+	Evs     []FEv
+	Term    chan bool
+	Done    chan struct{}
+	after   int           // callbacks after Done was observed closed
+	closed  bool          // Done observed closed
+	Park    chan struct{} // if non-nil the callback blocks on it before recording (used to queue events)
+	KeepVal bool          // keep each event's encoded value
 }
 
 type FEv struct {
@@ -39,6 +40,7 @@ type FEv struct {
 	Key  string `json:"key"`
 	Cas  uint64 `json:"cas"`
 	Tick int64  `json:"tick"`
+	Val  []byte `json:"-"`
 }
 
 func NewFeedLog(id string, coll, handle int) *FeedLog {
@@ -57,7 +59,11 @@ func (f *FeedLog) Callback(e sgbucket.FeedEvent) bool {
 		f.after++
 	default:
 	}
-	f.Evs = append(f.Evs, FEv{Op: uint8(e.Opcode), Key: string(e.Key), Cas: e.Cas, Tick: Tick.Add(1)})
+	ev := FEv{Op: uint8(e.Opcode), Key: string(e.Key), Cas: e.Cas, Tick: Tick.Add(1)}
+	if f.KeepVal {
+		ev.Val = append([]byte(nil), e.Value...)
+	}
+	f.Evs = append(f.Evs, ev)
 	f.cond.Broadcast()
 	f.mu.Unlock()
 	return true
